@@ -231,16 +231,44 @@ func r106(c *Ctx, r *R) {
 				continue
 			}
 			ok := lf.GuardedBy(func(g Guard) bool {
-				bo, isB := g.Cond.(*ssa.BinOp)
-				if !isB {
+				// "my distance is strictly larger than the other peer's", with
+				// the operands of bytes.Compare in either order and the
+				// comparison with 0/±1 in any spelling
+				x, op, kk, isCmp := cmpIntConst(g.Cond)
+				if !isCmp {
 					return false
 				}
-				call, _ := originCall(bo.X)
-				kk, isKK := constInt(bo.Y)
-				if call == nil || !nameMatches(callName(call.Common()), "bytes.Compare") || !isKK || kk != 0 {
+				call, _ := originCall(x)
+				if call == nil || !nameMatches(callName(call.Common()), "=bytes.Compare") {
 					return false
 				}
-				return (bo.Op == token.GTR && g.Branch) || (bo.Op == token.LEQ && !g.Branch)
+				a := call.Common().Args
+				mine0, mine1 := flowsFromField(a[0], "local"), flowsFromField(a[1], "local")
+				if mine0 == mine1 {
+					return false
+				}
+				// the result is positive (mine first) / negative (mine second)
+				var holdsOnTrue, known bool
+				switch {
+				case op == token.GTR && kk == 0, op == token.GEQ && kk == 1:
+					holdsOnTrue, known = true, true // result > 0
+				case op == token.LEQ && kk == 0, op == token.LSS && kk == 1:
+					holdsOnTrue, known = false, true // result > 0 on the false edge
+				}
+				if mine0 && known {
+					return holdsOnTrue == g.Branch
+				}
+				known = false
+				switch {
+				case op == token.LSS && kk == 0, op == token.LEQ && kk == -1:
+					holdsOnTrue, known = true, true // result < 0
+				case op == token.GEQ && kk == 0, op == token.GTR && kk == -1:
+					holdsOnTrue, known = false, true
+				}
+				if mine1 && known {
+					return holdsOnTrue == g.Branch
+				}
+				return false
 			})
 			r.Check(ok, "isClosest:strict", lf.Pos, "a peer loses only when its distance is strictly larger", "isClosest returns false on a non-strict comparison: with equal distances nobody is closest (or the comparison is inverted)")
 		}
